@@ -846,4 +846,90 @@ const pageMask = pageSize - 1"""),
       old="""	w.resources.reset()""",
       new="""	w.resources.reset()
 	w.listener = nil"""),
+
+ # ---------------- round-3 rules ----------------
+ dict(prop="C02", name="pool Reset clears the tail only (benign)", kind="B", file=PO,
+      old="""	p.entities = p.entities[:1]
+	p.next = 0
+	p.available = 0""",
+      new="""	clear(p.entities[1:])
+	p.entities = p.entities[:1]
+	p.next = 0
+	p.available = 0"""),
+ dict(prop="C15", name="Reset resets locks first (benign)", kind="B", file=W,
+      old="""	w.entities = w.entities[:1]
+	w.targetEntities.Reset()
+	w.entityPool.Reset()
+	w.locks.Reset()
+	w.resources.reset()""",
+      new="""	w.locks.Reset()
+	w.resources.reset()
+	w.entities = w.entities[:1]
+	w.targetEntities.Reset()
+	w.entityPool.Reset()"""),
+ dict(prop="C15", name="Reset skips the pool when it is empty", kind="M", file=W, expect="C15.R7",
+      old="""	w.entityPool.Reset()
+	w.locks.Reset()""",
+      new="""	if w.entityPool.Len() > 0 {
+		w.entityPool.Reset()
+	}
+	w.locks.Reset()"""),
+ dict(prop="C12", name="batch target pre-filter via ContainsAny (benign)", kind="B", file=WI,
+      old="""	if w.listener != nil && w.listener.Subscriptions().Contains(event.TargetChanged) {""",
+      new="""	if w.listener != nil && w.listener.Subscriptions().ContainsAny(event.TargetChanged) {"""),
+ dict(prop="C12", name="batch target pre-filter on Relations", kind="M", file=WI, expect="C12.R6",
+      old="""	if w.listener != nil && w.listener.Subscriptions().Contains(event.TargetChanged) {""",
+      new="""	if w.listener != nil && w.listener.Subscriptions().Contains(event.Relations) {"""),
+ dict(prop="C07", name="target comparison with swapped operands (benign)", kind="B", file=CA,
+      old="""			if rf.Target == arch.RelationTarget {""",
+      new="""			if arch.RelationTarget == rf.Target {"""),
+ dict(prop="C07", name="target comparison dropped for zero-target tables", kind="M", file=CA, expect="C07.R8",
+      old="""			if rf.Target == arch.RelationTarget {""",
+      new="""			if rf.Target == arch.RelationTarget || arch.RelationTarget.IsZero() {"""),
+ dict(prop="C03", name="batch start in a local (benign)", kind="B", file=Q,
+      old="""			ln := batch.EndIndex[j] - batch.StartIndex[j]
+			if idx < count+ln {
+				return batch.Archetype[j].GetEntity(batch.StartIndex[j] + idx - count)""",
+      new="""			start := batch.StartIndex[j]
+			ln := batch.EndIndex[j] - start
+			if idx < count+ln {
+				return batch.Archetype[j].GetEntity(start + idx - count)"""),
+ dict(prop="C18", name="Resource.Has through a local (benign)", kind="B", file="generic/resource.go",
+      old="""	return g.world.Resources().Has(g.id)""",
+      new="""	res := g.world.Resources()
+	return res.Has(g.id)"""),
+ dict(prop="C16", name="ComponentID through a typed nil pointer variable (benign)", kind="B", file=FN,
+      old="""	tp := reflect.TypeOf((*T)(nil)).Elem()
+	return w.componentID(tp)""",
+      new="""	var ptr *T
+	tp := reflect.TypeOf(ptr).Elem()
+	return w.componentID(tp)"""),
+ dict(prop="C17", name="MarshalJSON via explicit values (benign)", kind="B", file=EN,
+      old="""	arr := [2]uint32{uint32(e.id), e.gen}""",
+      new="""	id, gen := uint32(e.id), e.gen
+	arr := [2]uint32{id, gen}"""),
+ dict(prop="C10", name="Unlock recycles in a defer", kind="M", file=UT, expect="C10.R7",
+      old="""	m.locks.Set(id(l), false)
+	m.bitPool.Recycle(l)""",
+      new="""	defer m.bitPool.Recycle(l)
+	m.locks.Set(id(l), false)"""),
+ dict(prop="C01", name="own index entry written before the fix-up in exchangeNoNotify", kind="M", file=WI, expect="C01.R1",
+      old="""	swapped := oldArch.Remove(index.index)
+
+	if swapped {
+		swapEntity := oldArch.GetEntity(index.index)
+		w.entities[swapEntity.id].index = index.index
+	}
+	w.entities[entity.id] = entityIndex{arch: arch, index: newIndex}
+
+	var oldRel *ID""",
+      new="""	swapped := oldArch.Remove(index.index)
+	w.entities[entity.id] = entityIndex{arch: arch, index: newIndex}
+
+	if swapped {
+		swapEntity := oldArch.GetEntity(index.index)
+		w.entities[swapEntity.id].index = index.index
+	}
+
+	var oldRel *ID"""),
 ]
